@@ -11,7 +11,7 @@ checks, na, served = [], [], []
 for p in props:
     pid = p["id"]
     try:
-        mod = importlib.import_module(pid.lower())
+        import common; mod = common.load_property(pid)
     except ModuleNotFoundError:
         na.append({"property_id": pid, "reason": "not built yet in this round (no Lean model / check committed so far); see DESIGN.md §2 for the plan"})
         continue
